@@ -203,7 +203,7 @@ void mon_c17(CaseCtx &c, Rng &){
 #if !defined(__SANITIZE_ADDRESS__)
     {   // a torn checkpoint can make the reader ask for an arbitrary amount of memory: keep such a request from hurting the machine
         // (under ASan the driver passes max_allocation_size_mb / hard_rss_limit_mb instead)
-        struct rlimit rl; rl.rlim_cur = rl.rlim_max = (rlim_t) 3 << 30; setrlimit(RLIMIT_AS, &rl);
+        struct rlimit rl; rl.rlim_cur = rl.rlim_max = (rlim_t) 3 << 30; if (!getenv("C17_NO_RLIMIT")) setrlimit(RLIMIT_AS, &rl);
     }
 #endif
     std::string dir = arg("dir", ""), fclass = arg("fclass", "none");
@@ -230,13 +230,14 @@ void mon_c17(CaseCtx &c, Rng &){
     // saved(last completed checkpoint): library-parsed loaded + stored points of the snapshot, plus (sequential mode) the points whose
     // evaluation had returned before that checkpoint was written (extracted from the merged log by the driver)
     std::set<PKey> saved;
+    long saved_in_file = -1;        // loaded + stored points of the snapshot (the quantity the recovered hook event reports)
     bool have_saved = false;
     if (mode == "restart"){
         std::string sf = arg("saved", "");
         if (!sf.empty()){
             SnapInfo si = parse_snapshot(sf, ckpt);
             if (!si.ok){ c.inconc("snapshot-unreadable"); printf("N snapshot %s: %s\n", sf.c_str(), si.err.c_str()); }
-            else{ have_saved = true; for(size_t i=0; i + (size_t) s.dims <= si.pts.size(); i += (size_t) s.dims) saved.insert(rkey(&si.pts[i], s.dims)); }
+            else{ have_saved = true; saved_in_file = si.loaded + si.stored; for(size_t i=0; i + (size_t) s.dims <= si.pts.size(); i += (size_t) s.dims) saved.insert(rkey(&si.pts[i], s.dims)); }
         }
         std::string pf = arg("savedpts", "");
         if (!pf.empty()){
@@ -350,8 +351,8 @@ void mon_c17(CaseCtx &c, Rng &){
         c.count(g_hooks.recovered_source == 1 ? "recovered:main" : g_hooks.recovered_source == 2 ? "recovered:old" : "recovered:none");
         if (have_saved && !saved.empty() && g_hooks.recovered_source == 0)
             c.viol("recovered-nothing-although-a-checkpoint-completed@" + fclass, J().i("saved_points", (long long) saved.size()).obj());
-        if (have_saved && g_hooks.recovered_points < (long) saved.size())
-            c.viol("recovered-fewer-points-than-saved@" + fclass, J().i("saved_points", (long long) saved.size()).i("recovered_points", g_hooks.recovered_points).i("source", g_hooks.recovered_source).obj());
+        if (saved_in_file >= 0 && g_hooks.recovered_points < saved_in_file)
+            c.viol("recovered-fewer-points-than-saved@" + fclass, J().i("loaded_plus_stored_in_last_completed_checkpoint", saved_in_file).i("recovered_points", g_hooks.recovered_points).i("source", g_hooks.recovered_source).obj());
     }
     if (g_hooks.ckpt_begin != g_hooks.ckpt_end) c.viol("checkpoint-begin-end-mismatch@" + fclass, J().i("begin", g_hooks.ckpt_begin).i("end", g_hooks.ckpt_end).obj());
     // (d) final grid: the right kind of grid, every loaded value is the model at its point, distinct points, surrogate reproduces them
